@@ -33,6 +33,12 @@ CLAIMED = {
          GEN_NOTE, "Coq-verified rename-equivalence checker on pairs of emitted systems", "DESIGN.md section 6 C18"),
  'C09': ("Coq theorems over the reals: the book's period equations of SIM, SIMEX1 and PC determine the closed forms for all parameter values, exogenous values and stocks; the verified emitted-system checker certifies (with the parameters kept symbolic) every period equation from the equations the bundled builders emit; exit bound of the hand-coded iterative SIM; '%0.4f' formatting is exact iff the parameter has at most four decimals (known finding D09 otherwise). The oracle compares Model.GetTimeSeries with an independent evaluation of the recursion for random parameter vectors, paths and stocks.",
          GEN_NOTE, "Coq proofs (field arithmetic) + verified checker on the builders' emitted equations + closed-form oracle", "DESIGN.md section 6 C09"),
+ 'C15': ("Coq theorems: the (fixed) acceptance test is characterised exactly over the reals for every sign of the values; outcome and frame theorems for all series/exclusion lists of a model of CalculateInitialSteadyState (write-back, error conversion, copy semantics); next-period bound L*max(tol, tol*M, 2e-4) for L-Lipschitz one-period maps, with refutations for expansive and mixed-scale systems (known findings D15b, D15c). Model tied to equation_solver.py by bit-exact correspondence fed with the implementation's own steady-state series; oracle re-solves one more period on the implementation.",
+         "Trusts: Coq kernel+vm_compute; stdlib Reals axioms in the real-valued theorems; hand-written model coq/Hist/Steady.v validated by correspondence each run; the T periods solved inside the copy are the model's input (numerical core is C02's subject); Python deepcopy/dict order.",
+         "Coq proof (real arithmetic + invariant over the write-back loop) + correspondence check", "DESIGN.md section 6 C15"),
+ 'C17': ("Coq theorems (closed under the global context) over ALL histories of ParseString/SolveEquation/trace/horizon operations on a state-machine model of the solver object: a re-parsed solver reports exactly the new block's variables, re-solving is idempotent, results depend only on the block and configuration; the reported-names and cache part is proved, while history-independence of the computed VALUES rests on the oracle, which compares every object solved inside a long mixed history (models, solvers, logging on/off, tracing, repeated solves) bit-for-bit with the same object solved alone in a fresh interpreter, because the numerical core is a parameter of the model.",
+         "Trusts: Coq kernel+vm_compute; hand-written model coq/Hist/Reuse.v validated by correspondence each run; numerical core abstracted as a deterministic function of the parser state (tested by the oracle); Logger not modelled.",
+         "Coq proof by induction over operation histories + correspondence + fresh-process differential oracle", "DESIGN.md section 6 C17"),
 }
 def chk(pid):
     text, note, tech, ref = CLAIMED[pid]
